@@ -429,7 +429,11 @@ func (w *worker) runOne(in *Input) Result {
 // the number of scanner goroutines (frames of parse.(*lexer).run) that exist
 // after the entry point has returned and that did not exist before it.
 func (w *worker) profileAfterParse() (int, string) {
-	for i := 0; i < 200; i++ {
+	spins := 200
+	if len(w.leakedIDs) >= 40 {
+		spins = 30 // see settle below
+	}
+	for i := 0; i < spins; i++ {
 		if runtime.NumGoroutine() <= w.ngBase+len(w.leakedIDs) {
 			return 0, ""
 		}
